@@ -86,7 +86,7 @@ ASSUMPTIONS = ["manual exclusions are edited on a refreshed hierarchy",
                "a ghost set per child records the excluded root events: "
                "exclusion of visible event j adds root_id(j)"]
 EXPLANATION = "C04: bounded symbolic histories over the real hierarchy code."
-CASE_TIMEOUT = 600
+CASE_TIMEOUT = 2400
 
 TMP = "verif_c04_tmp"
 DEFORM = [0.02 + 0.01 * i for i in range(8)]
@@ -541,7 +541,7 @@ def cases(tier, seed):
         ]
         N = 4
         out += [
-            ("N4 d2 X2 R X2 R", H(N, 2, R, F, X(2), F, R, F, X(2), F, R, F)),
+            ("N4 d2 X2 R X2 R", H(N, 2, X(2), F, R, F, X(2), F, R, F)),
             ("N4 d2 X1 B1 X2 R", H(N, 2, X(1), F, B(1), F, X(2), F, R, F)),
             ("N4 d3 X3 B1 X3 BX1", H(N, 3, B(0), F, X(3), F, B(1), F, X(3),
                                      F, BX(1), F)),
